@@ -1,375 +1,496 @@
-import EaselModel.Sqio.Tracker
-/-! # The EXACT predicate the bytes/residues-per-line tracker of `seebuf` guarantees (C04 / C07)
+import EaselModel.Sqio.Model
+/-! # The EXACT predicate `bpl, rpl > 0` guarantees after a scan (C04 / C07) — `seebuf_linegeometry()` as repaired by 283ccd7
 
-`Tracker.checked_lines_have_rpl` is one direction for one line. Here the tracker's final value is put in closed form for every
-scan (`run_rpl_closed` / `run_bpl_closed`), and from it an `iff`:
+A scan of whole records is, for the tracker, a sequence of records; a record is `header_*` (which resets `prv*` to −1 and `cur*`
+to 0) followed by its data lines, each seen to its end: a terminated line by `Track.onEol b r` (`b` bytes inclusive of the
+newline, `r` residues), the unterminated last line of a record (EOF or the next `>` without a newline) by `Track.onStop b r`.
 
-after a scan of whole records, `rpl = p > 0` **iff** the list of *consecutive line pairs* `(rₖ, rₖ₊₁)` (two terminated lines of
-the same record, in file order) is non-empty, every pair's first component is `p`, and every pair but the very first one has
-second component `≤ p`.
-
-In words: every non-final line of every record has exactly `p` residues; the final line of a record with ≥ 2 lines has at
-most `p`, EXCEPT the second line of the first multi-line record of the scan when it is that record's last (the line at which
-`rpl` is initialised is never compared); the single line of a one-line record is never looked at. These two exceptions, and
-only these, are the known finding "accepts a longer last line". -/
+`tracker_iff`: after such a scan from a fresh handle, `rpl = p > 0 ∧ bpl = w > 0` **iff**
+* some line is followed by another line of its record,
+* every line that is followed by another line of its record has exactly `w` bytes and `p` residues, and
+* EVERY line — last, only, or unterminated line of a record included — has at most `p` residues and at most `w − p − 1` ignored
+  bytes (blanks, `\r`; its newline not counted).
+This is exactly the geometry the offset arithmetic of reverse `ReadWindow` / `FetchSubseq` needs (`Geometry.FullLines` for the
+lines in front of `start`, and `start` really lies on line `(start−1)/p`). Only `Sqio/Model.lean` is imported. -/
 namespace EaselModel.Sqio.TrackerExact
-open EaselModel.Sqio EaselModel.Sqio.Tracker
+open EaselModel.Sqio
 
-/-! ## one channel (`rpl` or `bpl`) of the tracker -/
-
-/-- one counting channel of the tracker: (`pl`, `prv`, `cur`) = (`rpl`,`prvrpl`,`currpl`) or (`bpl`,`prvbpl`,`curbpl`) -/
-structure Chan where
-  pl : Int
-  prv : Int
-  cur : Int
+/-- a data line as the tracker has seen it when it is complete -/
+structure Line where
+  b : Int        -- bytes, the newline included when terminated
+  r : Int        -- residues
+  eol : Bool     -- terminated by a newline?
   deriving Repr, DecidableEq
 
-def Chan.onEol (c : Chan) (d : Int) : Chan :=
-  let cur := if c.cur ≠ -1 then c.cur + d else c.cur
-  { pl := if c.pl ≠ 0 ∧ c.prv ≠ -1 then
-            (if c.pl = -1 then c.prv else if c.prv ≠ c.pl then 0 else if cur > c.pl then 0 else c.pl)
-          else c.pl,
-    prv := cur, cur := 0 }
+/-- ignored bytes of a line (blanks, `\r`, digits in GenBank …), the newline not counted -/
+def Line.x (l : Line) : Int := l.b - l.r - (if l.eol then 1 else 0)
 
-def Chan.hdr (c : Chan) : Chan := { c with prv := -1, cur := 0 }
+/-- what a line of a real file satisfies -/
+def Line.Ok (l : Line) : Prop := 1 ≤ l.b ∧ 0 ≤ l.r ∧ 0 ≤ l.x
 
-def rchan (t : Track) : Chan := ⟨t.rpl, t.prvrpl, t.currpl⟩
-def bchan (t : Track) : Chan := ⟨t.bpl, t.prvbpl, t.curbpl⟩
+/-- `header_fasta` (and the other header parsers): start the line bookkeeping of a new record -/
+def hdr (t : Track) : Track := { t with prvrpl := -1, prvbpl := -1, currpl := 0, curbpl := 0 }
 
-theorem rchan_onEol (t : Track) (b r : Int) : rchan (t.onEol b r) = (rchan t).onEol r := by
-  simp only [rchan, Chan.onEol, Chan.mk.injEq]
-  refine ⟨?_, ?_, ?_⟩
-  · rw [onEol_rpl]; congr
-  · rw [onEol_prvrpl]; congr
-  · rw [onEol_currpl]
+/-- one line seen to its end by `seebuf` -/
+def line (t : Track) (l : Line) : Track := if l.eol then t.onEol l.b l.r else t.onStop l.b l.r
 
-theorem onEol_prvbpl (t : Track) (b r : Int) :
-    (t.onEol b r).prvbpl = if t.curbpl ≠ -1 then t.curbpl + b else t.curbpl := by
-  simp [Track.onEol]
+def runRec (t : Track) (rec : List Line) : Track := rec.foldl line (hdr t)
+def runFile (t : Track) (recs : List (List Line)) : Track := recs.foldl runRec t
 
-theorem onEol_curbpl (t : Track) (b r : Int) : (t.onEol b r).curbpl = 0 := by simp [Track.onEol]
+/-! ## the tracker as a fold of a pure step over (previous line of the record, line) -/
 
-theorem bchan_onEol (t : Track) (b r : Int) : bchan (t.onEol b r) = (bchan t).onEol b := by
-  simp only [bchan, Chan.onEol, Chan.mk.injEq]
-  refine ⟨?_, ?_, ?_⟩
-  · rw [onEol_bpl]; congr
-  · rw [onEol_prvbpl]; congr
-  · rw [onEol_curbpl]
+structure S4 where
+  rpl : Int
+  bpl : Int
+  mr : Int
+  mx : Int
+  deriving Repr, DecidableEq
 
-theorem rchan_hdr (t : Track) : rchan (step t .hdr) = (rchan t).hdr := rfl
-theorem bchan_hdr (t : Track) : bchan (step t .hdr) = (bchan t).hdr := rfl
+def core (t : Track) : S4 := ⟨t.rpl, t.bpl, t.maxrpl, t.maxxpl⟩
 
-/-! ## the closed form: a fold over consecutive line pairs -/
+def fl (p w : Int) : Int := if w = -1 then p else if p ≠ w then 0 else w
 
-/-- what one pair of consecutive lines (`a` then `b`) does to the per-line value -/
-def upd (pl : Int) (q : Int × Int) : Int :=
-  if pl = 0 then 0 else if pl = -1 then q.1 else if q.1 ≠ pl then 0 else if q.2 > pl then 0 else pl
+def prevR (prev : Option Line) (w : Int) : Int := match prev with | none => w | some q => fl q.r w
+def prevB (prev : Option Line) (w : Int) : Int := match prev with | none => w | some q => fl q.b w
 
-def feed (pl : Int) (ps : List (Int × Int)) : Int := ps.foldl upd pl
+def g (s : S4) (st : Option Line × Line) : S4 :=
+  let mr := if st.2.r > s.mr then st.2.r else s.mr
+  let mx := if st.2.x > s.mx then st.2.x else s.mx
+  let R := prevR st.1 s.rpl
+  let B := prevB st.1 s.bpl
+  if R > 0 ∧ B > 0 ∧ (mr > R ∨ mx > B - R - 1) then ⟨0, 0, mr, mx⟩ else ⟨R, B, mr, mx⟩
 
-/-- consecutive pairs of one record's per-line counts -/
-def pairsOf (ds : List Int) : List (Int × Int) := ds.zip ds.tail
+def stepsFrom : Option Line → List Line → List (Option Line × Line)
+  | _, [] => []
+  | prev, l :: rest => (prev, l) :: stepsFrom (some l) rest
 
-/-- the rest of a record, the previous line (`prv = q ≥ 0`) already seen -/
-theorem lines_closed (ds : List Int) (c : Chan) (q : Int) (hcur : c.cur = 0) (hprv : c.prv = q) (hq : 0 ≤ q)
-    (hds : ∀ d ∈ ds, 0 ≤ d) :
-    (ds.foldl Chan.onEol c).pl = feed c.pl (pairsOf (q :: ds)) ∧ (ds.foldl Chan.onEol c).cur = 0 := by
-  induction ds generalizing c q with
-  | nil => exact ⟨rfl, hcur⟩
-  | cons d rest ih =>
-    have hd : 0 ≤ d := hds d (by simp)
-    have h1 : (c.onEol d).cur = 0 := rfl
-    have h2 : (c.onEol d).prv = d := by simp [Chan.onEol, hcur]
-    have h3 : (c.onEol d).pl = upd c.pl (q, d) := by
-      simp only [Chan.onEol, upd, hcur, hprv]
-      by_cases hz : c.pl = 0
-      · simp [hz]
-      · have : q ≠ -1 := by omega
-        simp [hz, this]
-    have := ih (c.onEol d) d h1 h2 hd (fun x hx => hds x (by simp [hx]))
-    rw [List.foldl_cons, this.1, h3]
-    exact ⟨by simp [pairsOf, feed], this.2⟩
+/-- the tracker's `prv*` fields encode the previous line of the record -/
+def PrvIs (t : Track) : Option Line → Prop
+  | none => t.prvrpl = -1 ∧ t.prvbpl = -1
+  | some q => t.prvrpl = q.r ∧ t.prvbpl = q.b ∧ 0 ≤ q.r ∧ 0 ≤ q.b
 
-/-- one whole record: header, then its terminated lines -/
-theorem record_closed (ds : List Int) (c : Chan) (hds : ∀ d ∈ ds, 0 ≤ d) :
-    (ds.foldl Chan.onEol c.hdr).pl = feed c.pl (pairsOf ds) ∧ (ds.foldl Chan.onEol c.hdr).cur = 0 := by
-  cases ds with
-  | nil => exact ⟨rfl, rfl⟩
-  | cons d rest =>
-    have hd : 0 ≤ d := hds d (by simp)
-    have h1 : (c.hdr.onEol d).cur = 0 := rfl
-    have h2 : (c.hdr.onEol d).prv = d := by simp [Chan.onEol, Chan.hdr]
-    have h3 : (c.hdr.onEol d).pl = c.pl := by simp [Chan.onEol, Chan.hdr]
-    have := lines_closed rest (c.hdr.onEol d) d h1 h2 hd (fun x hx => hds x (by simp [hx]))
-    rw [List.foldl_cons, this.1, h3]
-    exact ⟨rfl, this.2⟩
+theorem fullLine_r (t : Track) (prev : Option Line) (hp : PrvIs t prev) :
+    Track.fullLine t.prvrpl t.prvbpl t.rpl = prevR prev t.rpl := by
+  cases prev with
+  | none => obtain ⟨p1, p2⟩ := hp; simp [Track.fullLine, p1, prevR]
+  | some q =>
+    obtain ⟨p1, p2, p3, p4⟩ := hp
+    have hq1 : q.r ≠ -1 := by omega
+    have hq2 : q.b ≠ -1 := by omega
+    simp [Track.fullLine, fl, p1, p2, hq1, hq2, prevR]
 
-/-- all consecutive pairs of a file, in file order -/
-def allPairs (recs : List (List Int)) : List (Int × Int) := recs.flatMap pairsOf
+theorem fullLine_b (t : Track) (prev : Option Line) (hp : PrvIs t prev) :
+    Track.fullLine t.prvbpl t.prvrpl t.bpl = prevB prev t.bpl := by
+  cases prev with
+  | none => obtain ⟨p1, p2⟩ := hp; simp [Track.fullLine, p2, prevB]
+  | some q =>
+    obtain ⟨p1, p2, p3, p4⟩ := hp
+    have hq1 : q.r ≠ -1 := by omega
+    have hq2 : q.b ≠ -1 := by omega
+    simp [Track.fullLine, fl, p1, p2, hq1, hq2, prevB]
 
-theorem feed_append (pl : Int) (a b : List (Int × Int)) : feed pl (a ++ b) = feed (feed pl a) b := by
-  simp [feed, List.foldl_append]
+theorem lg_keep (t : Track) (e : Bool) :
+    (t.lineGeometry e).curbpl = t.curbpl ∧ (t.lineGeometry e).currpl = t.currpl ∧
+    (t.lineGeometry e).prvrpl = t.prvrpl ∧ (t.lineGeometry e).prvbpl = t.prvbpl := by
+  unfold Track.lineGeometry
+  split
+  · exact ⟨rfl, rfl, rfl, rfl⟩
+  · simp only []
+    repeat' split
+    all_goals exact ⟨rfl, rfl, rfl, rfl⟩
 
-/-- a file = records; each record = header event + one end-of-line event per terminated line -/
-def runChan (c : Chan) (recs : List (List Int)) : Chan :=
-  recs.foldl (fun c ds => ds.foldl Chan.onEol c.hdr) c
+/-- `seebuf_linegeometry()` on a complete line -/
+theorem lg_core (t : Track) (l : Line) (prev : Option Line) (hb : t.curbpl = l.b) (hr : t.currpl = l.r) (hp : PrvIs t prev)
+    (hl : l.Ok) :
+    core (t.lineGeometry l.eol) = g (core t) (prev, l) := by
+  obtain ⟨h1, h2, h3⟩ := hl
+  have hx : t.curbpl - t.currpl - (if l.eol = true then 1 else 0) = l.x := by rw [hb, hr]; rfl
+  have hg : ¬ (t.curbpl ≤ 0 ∨ t.currpl = -1) := by omega
+  have eR := fullLine_r t prev hp
+  have eB := fullLine_b t prev hp
+  unfold Track.lineGeometry
+  rw [if_neg hg]
+  simp only [hx, eR, eB]
+  simp only [hr]
+  rw [apply_ite core]
+  rfl
 
-theorem file_closed (recs : List (List Int)) (c : Chan) (h : ∀ ds ∈ recs, ∀ d ∈ ds, 0 ≤ d) :
-    (runChan c recs).pl = feed c.pl (allPairs recs) := by
-  induction recs generalizing c with
+theorem core_line (t : Track) (l : Line) (prev : Option Line) (hb : t.curbpl = 0) (hr : t.currpl = 0) (hp : PrvIs t prev)
+    (hl : l.Ok) :
+    core (line t l) = g (core t) (prev, l) ∧
+    (l.eol = true → (line t l).curbpl = 0 ∧ (line t l).currpl = 0 ∧ (line t l).prvrpl = l.r ∧ (line t l).prvbpl = l.b) := by
+  have a1 : (t.advance l.b l.r).curbpl = l.b := by simp [Track.advance, hb]
+  have a2 : (t.advance l.b l.r).currpl = l.r := by simp [Track.advance, hr]
+  have a3 : core (t.advance l.b l.r) = core t := rfl
+  have a4 : PrvIs (t.advance l.b l.r) prev := by cases prev <;> exact hp
+  have c1 := lg_core (t.advance l.b l.r) l prev a1 a2 a4 hl
+  rw [a3] at c1
+  obtain ⟨c2, c3, c4, c5⟩ := lg_keep (t.advance l.b l.r) l.eol
+  rw [a1] at c2
+  rw [a2] at c3
+  cases he : l.eol
+  · rw [he] at c1
+    exact ⟨by simpa [line, he, Track.onStop] using c1, by simp⟩
+  · rw [he] at c1 c2 c3
+    refine ⟨?_, fun _ => ?_⟩
+    · have : core (line t l) = core ((t.advance l.b l.r).lineGeometry true) := by simp [line, he, Track.onEol, core]
+      rw [this, c1]
+    · simp [line, he, Track.onEol, c2, c3]
+
+/-! ## a scan = a fold of `g` over the steps of the file -/
+
+theorem dropLast_mem_cons {α : Type} (a b : α) (l : List α) (x : α) (h : x ∈ (b :: l).dropLast) : x ∈ (a :: b :: l).dropLast := by
+  show x ∈ a :: (b :: l).dropLast
+  exact List.mem_cons_of_mem a h
+
+theorem lines_fold (ls : List Line) (t : Track) (prev : Option Line) (hb : t.curbpl = 0) (hr : t.currpl = 0) (hp : PrvIs t prev)
+    (hok : ∀ l ∈ ls, l.Ok) (hterm : ∀ l ∈ ls.dropLast, l.eol = true) :
+    core (ls.foldl line t) = (stepsFrom prev ls).foldl g (core t) := by
+  induction ls generalizing t prev with
   | nil => rfl
-  | cons ds rest ih =>
-    have h1 := record_closed ds c (h ds (by simp))
-    have := ih (ds.foldl Chan.onEol c.hdr) (fun x hx => h x (by simp [hx]))
-    simp only [runChan, List.foldl_cons] at this ⊢
-    rw [this, h1.1]
-    show _ = feed c.pl (pairsOf ds ++ allPairs rest)
-    rw [feed_append]
+  | cons l rest ih =>
+    have hl := hok l (by simp)
+    obtain ⟨c1, c2⟩ := core_line t l prev hb hr hp hl
+    cases rest with
+    | nil => simp [stepsFrom, c1]
+    | cons l2 rest2 =>
+      have he : l.eol = true := hterm l (by show l ∈ l :: (l2 :: rest2).dropLast; simp)
+      obtain ⟨d1, d2, d3, d4⟩ := c2 he
+      have hp' : PrvIs (line t l) (some l) := ⟨d3, d4, hl.2.1, by have := hl.1; omega⟩
+      have := ih (line t l) (some l) d1 d2 hp' (fun x hx => hok x (by simp [hx]))
+        (fun x hx => hterm x (dropLast_mem_cons l l2 rest2 x hx))
+      rw [List.foldl_cons, this, c1]; rfl
 
-/-! ## link with `Tracker.run` / `Tracker.events` -/
+def fileSteps (recs : List (List Line)) : List (Option Line × Line) := recs.flatMap (stepsFrom none)
 
-theorem run_lines_rchan (lines : List (Int × Int)) (t : Track) :
-    rchan (run t (lines.map fun ln => Ev.eol ln.1 ln.2)) = (lines.map Prod.snd).foldl Chan.onEol (rchan t) := by
-  induction lines generalizing t with
-  | nil => rfl
-  | cons ln rest ih =>
-    simp only [List.map_cons, run, List.foldl_cons] at ih ⊢
-    rw [ih]; congr 1; exact rchan_onEol t ln.1 ln.2
+theorem rec_fold (rec : List Line) (t : Track) (hok : ∀ l ∈ rec, l.Ok) (hterm : ∀ l ∈ rec.dropLast, l.eol = true) :
+    core (runRec t rec) = (stepsFrom none rec).foldl g (core t) :=
+  lines_fold rec (hdr t) none rfl rfl ⟨rfl, rfl⟩ hok hterm
 
-theorem run_lines_bchan (lines : List (Int × Int)) (t : Track) :
-    bchan (run t (lines.map fun ln => Ev.eol ln.1 ln.2)) = (lines.map Prod.fst).foldl Chan.onEol (bchan t) := by
-  induction lines generalizing t with
-  | nil => rfl
-  | cons ln rest ih =>
-    simp only [List.map_cons, run, List.foldl_cons] at ih ⊢
-    rw [ih]; congr 1; exact bchan_onEol t ln.1 ln.2
-
-theorem run_events_rchan (recs : List (List (Int × Int))) (t : Track) :
-    rchan (run t (events recs)) = runChan (rchan t) (recs.map (·.map Prod.snd)) := by
+theorem file_fold (recs : List (List Line)) (t : Track) (hok : ∀ rec ∈ recs, ∀ l ∈ rec, l.Ok)
+    (hterm : ∀ rec ∈ recs, ∀ l ∈ rec.dropLast, l.eol = true) :
+    core (runFile t recs) = (fileSteps recs).foldl g (core t) := by
   induction recs generalizing t with
   | nil => rfl
-  | cons ls rest ih =>
-    have e : events (ls :: rest) = (Ev.hdr :: ls.map fun ln => Ev.eol ln.1 ln.2) ++ events rest := by
-      simp [events]
-    rw [e, run_append, ih]
-    simp only [List.map_cons, runChan, List.foldl_cons]
-    congr 1
-    have : run t (Ev.hdr :: ls.map fun ln => Ev.eol ln.1 ln.2) = run (step t .hdr) (ls.map fun ln => Ev.eol ln.1 ln.2) := rfl
-    rw [this, run_lines_rchan, rchan_hdr]
+  | cons rec rest ih =>
+    have := ih (runRec t rec) (fun r hr => hok r (by simp [hr])) (fun r hr => hterm r (by simp [hr]))
+    simp only [runFile, List.foldl_cons] at this ⊢
+    rw [this, rec_fold rec t (hok rec (by simp)) (hterm rec (by simp))]
+    simp [fileSteps, List.foldl_append]
 
-theorem run_events_bchan (recs : List (List (Int × Int))) (t : Track) :
-    bchan (run t (events recs)) = runChan (bchan t) (recs.map (·.map Prod.fst)) := by
-  induction recs generalizing t with
-  | nil => rfl
-  | cons ls rest ih =>
-    have e : events (ls :: rest) = (Ev.hdr :: ls.map fun ln => Ev.eol ln.1 ln.2) ++ events rest := by
-      simp [events]
-    rw [e, run_append, ih]
-    simp only [List.map_cons, runChan, List.foldl_cons]
-    congr 1
-    have : run t (Ev.hdr :: ls.map fun ln => Ev.eol ln.1 ln.2) = run (step t .hdr) (ls.map fun ln => Ev.eol ln.1 ln.2) := rfl
-    rw [this, run_lines_bchan, bchan_hdr]
+/-! ## the fold of `g`, characterised -/
 
-/-- **closed form of `rpl`** after any scan of whole records, from any tracker state -/
-theorem run_rpl_closed (recs : List (List (Int × Int))) (t : Track) (h : ∀ ls ∈ recs, ∀ l ∈ ls, 0 ≤ l.2) :
-    (run t (events recs)).rpl = feed t.rpl (allPairs (recs.map (·.map Prod.snd))) := by
-  have := congrArg Chan.pl (run_events_rchan recs t)
-  rw [file_closed] at this
-  · exact this
-  · intro ds hds d hd
-    obtain ⟨ls, hls, rfl⟩ := List.mem_map.mp hds
-    obtain ⟨l, hl, rfl⟩ := List.mem_map.mp hd
-    exact h ls hls l hl
+def mr' (s : S4) (st : Option Line × Line) : Int := if st.2.r > s.mr then st.2.r else s.mr
+def mx' (s : S4) (st : Option Line × Line) : Int := if st.2.x > s.mx then st.2.x else s.mx
+def Dead (s : S4) (st : Option Line × Line) : Prop :=
+  prevR st.1 s.rpl > 0 ∧ prevB st.1 s.bpl > 0 ∧
+    (mr' s st > prevR st.1 s.rpl ∨ mx' s st > prevB st.1 s.bpl - prevR st.1 s.rpl - 1)
 
-/-- **closed form of `bpl`** -/
-theorem run_bpl_closed (recs : List (List (Int × Int))) (t : Track) (h : ∀ ls ∈ recs, ∀ l ∈ ls, 0 ≤ l.1) :
-    (run t (events recs)).bpl = feed t.bpl (allPairs (recs.map (·.map Prod.fst))) := by
-  have := congrArg Chan.pl (run_events_bchan recs t)
-  rw [file_closed] at this
-  · exact this
-  · intro ds hds d hd
-    obtain ⟨ls, hls, rfl⟩ := List.mem_map.mp hds
-    obtain ⟨l, hl, rfl⟩ := List.mem_map.mp hd
-    exact h ls hls l hl
+theorem g_dead (s : S4) (st : Option Line × Line) (h : Dead s st) : g s st = ⟨0, 0, mr' s st, mx' s st⟩ := by
+  unfold g; exact if_pos h
+theorem g_live (s : S4) (st : Option Line × Line) (h : ¬ Dead s st) :
+    g s st = ⟨prevR st.1 s.rpl, prevB st.1 s.bpl, mr' s st, mx' s st⟩ := by
+  unfold g; exact if_neg h
 
-/-! ## the predicate -/
+theorem g_mr (s : S4) (st : Option Line × Line) : (g s st).mr = mr' s st := by
+  by_cases h : Dead s st
+  · rw [g_dead s st h]
+  · rw [g_live s st h]
+theorem g_mx (s : S4) (st : Option Line × Line) : (g s st).mx = mx' s st := by
+  by_cases h : Dead s st
+  · rw [g_dead s st h]
+  · rw [g_live s st h]
 
-theorem feed_zero (ps : List (Int × Int)) : feed 0 ps = 0 := by
-  induction ps with
-  | nil => rfl
-  | cons q rest ih => simpa [feed, upd] using ih
+theorem fold_max_ge (S : List (Option Line × Line)) (s : S4) :
+    (s.mr ≤ (S.foldl g s).mr ∧ s.mx ≤ (S.foldl g s).mx) ∧
+    ∀ st ∈ S, st.2.r ≤ (S.foldl g s).mr ∧ st.2.x ≤ (S.foldl g s).mx := by
+  induction S generalizing s with
+  | nil => exact ⟨⟨Int.le_refl _, Int.le_refl _⟩, fun _ h => by simp at h⟩
+  | cons st rest ih =>
+    obtain ⟨⟨i1, i2⟩, i3⟩ := ih (g s st)
+    rw [g_mr] at i1; rw [g_mx] at i2
+    have e1 : s.mr ≤ mr' s st ∧ st.2.r ≤ mr' s st := by unfold mr'; split <;> omega
+    have e2 : s.mx ≤ mx' s st ∧ st.2.x ≤ mx' s st := by unfold mx'; split <;> omega
+    refine ⟨⟨by rw [List.foldl_cons]; omega, by rw [List.foldl_cons]; omega⟩, fun x hx => ?_⟩
+    rw [List.foldl_cons]
+    rcases List.mem_cons.mp hx with rfl | hx
+    · exact ⟨by omega, by omega⟩
+    · exact i3 x hx
 
-/-- once set to `p > 0`, the value survives exactly the pairs `(p, ≤ p)` -/
-theorem feed_pos_iff (ps : List (Int × Int)) (a p : Int) (ha : a ≠ -1) (hp : 0 < p) :
-    feed a ps = p ↔ a = p ∧ ∀ q ∈ ps, q.1 = p ∧ q.2 ≤ p := by
-  induction ps generalizing a with
-  | nil => simp [feed]
-  | cons q rest ih =>
-    have e : feed a (q :: rest) = feed (upd a q) rest := rfl
-    rw [e]
-    by_cases hz : a = 0
-    · subst hz
-      have : upd 0 q = 0 := by simp [upd]
-      rw [this, feed_zero]; constructor
-      · intro h; omega
-      · intro h; omega
-    · by_cases h1 : q.1 ≠ a
-      · have : upd a q = 0 := by simp [upd, hz, ha, h1]
-        rw [this, feed_zero]; constructor
-        · intro h; omega
-        · rintro ⟨rfl, h⟩; exact absurd (h q (by simp)).1 h1
-      · have h1' : q.1 = a := by omega
-        by_cases h2 : q.2 > a
-        · have : upd a q = 0 := by simp [upd, hz, ha, h1', h2]
-          rw [this, feed_zero]; constructor
-          · intro h; omega
-          · rintro ⟨rfl, h⟩; have := (h q (by simp)).2; omega
-        · have : upd a q = a := by simp [upd, hz, ha, h1', h2]
-          rw [this, ih a ha]; constructor
-          · rintro ⟨rfl, h⟩
-            refine ⟨rfl, fun x hx => ?_⟩
-            rcases List.mem_cons.mp hx with rfl | hx
-            · exact ⟨h1', by omega⟩
-            · exact h x hx
-          · rintro ⟨rfl, h⟩; exact ⟨rfl, fun x hx => h x (by simp [hx])⟩
+def Good (s : S4) (p w : Int) : Prop := s.rpl = p ∧ s.bpl = w
+def Unset (s : S4) : Prop := s.rpl = -1 ∧ s.bpl = -1
+/-- the two widths are initialised together -/
+def Paired (s : S4) : Prop := s.rpl = -1 ↔ s.bpl = -1
+def StepOk (st : Option Line × Line) : Prop := ∀ q, st.1 = some q → 0 ≤ q.r ∧ 0 ≤ q.b
 
-/-- **The exact guarantee**, on pairs: starting unset (`−1`), the final value is `p > 0` iff there is at least one pair, the first
-    pair's first line has `p`, and every later pair is `(p, ≤ p)`. The first pair's second line is NOT constrained. -/
-theorem feed_unset_iff (ps : List (Int × Int)) (p : Int) (hp : 0 < p) (hnn : ∀ q ∈ ps, 0 ≤ q.1) :
-    feed (-1) ps = p ↔ ∃ q rest, ps = q :: rest ∧ q.1 = p ∧ ∀ x ∈ rest, x.1 = p ∧ x.2 ≤ p := by
-  cases ps with
-  | nil => simp [feed]; omega
-  | cons q rest =>
-    have e : feed (-1) (q :: rest) = feed q.1 rest := by simp [feed, upd]
-    have hq := hnn q (by simp)
-    rw [e, feed_pos_iff rest q.1 p (by omega) hp]
-    constructor
-    · rintro ⟨h1, h2⟩; exact ⟨q, rest, rfl, h1, h2⟩
-    · rintro ⟨q', rest', h0, h1, h2⟩
-      obtain ⟨rfl, rfl⟩ := List.cons.inj h0
-      exact ⟨h1, h2⟩
+theorem fl_eq_pos (p w v : Int) (hv : 0 < v) (hp : 0 ≤ p) : fl p w = v ↔ (w = -1 ∧ p = v) ∨ (w = v ∧ p = v) := by
+  unfold fl; split
+  · omega
+  · split <;> omega
 
-theorem feed_unset_eq_unset (ps : List (Int × Int)) (hnn : ∀ q ∈ ps, 0 ≤ q.1) : feed (-1) ps = -1 ↔ ps = [] := by
-  cases ps with
-  | nil => simp [feed]
-  | cons q rest =>
-    have e : feed (-1) (q :: rest) = feed q.1 rest := by simp [feed, upd]
-    have hq := hnn q (by simp)
-    simp only [e, reduceCtorEq, iff_false]
-    intro h
-    -- a value ≥ 0 never becomes −1 again
-    have key : ∀ (ps : List (Int × Int)) (a : Int), 0 ≤ a → 0 ≤ feed a ps := by
-      intro ps
-      induction ps with
-      | nil => intro a ha; exact ha
-      | cons x xs ih =>
-        intro a ha
-        have : feed a (x :: xs) = feed (upd a x) xs := rfl
-        rw [this]; apply ih
-        simp only [upd]; repeat' split
-        all_goals omega
-    have := key rest q.1 hq
-    omega
+theorem fl_ne_unset (p w : Int) (hp : 0 ≤ p) : fl p w ≠ -1 := by
+  unfold fl; split
+  · omega
+  · split <;> omega
 
-/-! ## from pairs to lines -/
+theorem g_paired (s : S4) (st : Option Line × Line) (hs : StepOk st) (h : Paired s) : Paired (g s st) := by
+  by_cases hd : Dead s st
+  · rw [g_dead s st hd]; simp [Paired]
+  · rw [g_live s st hd]
+    cases hq : st.1 with
+    | none => simpa [Paired, prevR, prevB] using h
+    | some q =>
+      have := hs q hq
+      have a := fl_ne_unset q.r s.rpl this.1
+      have b := fl_ne_unset q.b s.bpl this.2
+      simp [Paired, prevR, prevB, a, b]
 
-theorem pairsOf_fst (ds : List Int) : (pairsOf ds).map Prod.fst = ds.dropLast := by
-  induction ds with
-  | nil => rfl
-  | cons d rest ih =>
+theorem step_back_unset (s : S4) (st : Option Line × Line) (hs : StepOk st) (h : Unset (g s st)) : Unset s ∧ st.1 = none := by
+  by_cases hd : Dead s st
+  · rw [g_dead s st hd] at h; simp [Unset] at h
+  · rw [g_live s st hd] at h
+    cases hq : st.1 with
+    | none => rw [hq] at h; exact ⟨by simpa [Unset, prevR, prevB] using h, rfl⟩
+    | some q =>
+      rw [hq] at h
+      exact absurd h.1 (fl_ne_unset q.r s.rpl (hs q hq).1)
+
+theorem step_back_good (s : S4) (st : Option Line × Line) (hs : StepOk st) (hP : Paired s) (p w : Int) (hp : 0 < p) (hw : 0 < w)
+    (h : Good (g s st) p w) :
+    ((st.1 = none ∧ Good s p w) ∨ (∃ q, st.1 = some q ∧ q.b = w ∧ q.r = p ∧ (Unset s ∨ Good s p w))) ∧
+    mr' s st ≤ p ∧ mx' s st ≤ w - p - 1 := by
+  by_cases hd : Dead s st
+  · rw [g_dead s st hd] at h; obtain ⟨h1, _⟩ := h; simp at h1; omega
+  · rw [g_live s st hd] at h
+    obtain ⟨h1, h2⟩ := h
+    simp only at h1 h2
+    have hb : mr' s st ≤ p ∧ mx' s st ≤ w - p - 1 := by
+      unfold Dead at hd; rw [h1, h2] at hd
+      constructor
+      · apply Int.not_lt.mp; intro hc; exact hd ⟨hp, hw, Or.inl hc⟩
+      · apply Int.not_lt.mp; intro hc; exact hd ⟨hp, hw, Or.inr hc⟩
+    refine ⟨?_, hb⟩
+    cases hq : st.1 with
+    | none => rw [hq] at h1 h2; exact Or.inl ⟨rfl, h1, h2⟩
+    | some q =>
+      rw [hq] at h1 h2
+      have hq' := hs q hq
+      have a := (fl_eq_pos q.r s.rpl p hp hq'.1).mp h1
+      have b := (fl_eq_pos q.b s.bpl w hw hq'.2).mp h2
+      refine Or.inr ⟨q, rfl, ?_, ?_, ?_⟩
+      · rcases b with b | b <;> exact b.2
+      · rcases a with a | a <;> exact a.2
+      · rcases a with a | a
+        · exact Or.inl ⟨a.1, hP.mp a.1⟩
+        · rcases b with b | b
+          · have := hP.mpr b.1; omega
+          · exact Or.inr ⟨a.1, b.1⟩
+
+/-- necessity: from a final `rpl = p > 0, bpl = w > 0` back to the lines -/
+theorem fold_good_nec (S : List (Option Line × Line)) (hS : ∀ st ∈ S, StepOk st) (s : S4) (hP : Paired s) (p w : Int)
+    (hp : 0 < p) (hw : 0 < w) (h : Good (S.foldl g s) p w) :
+    ((Unset s ∧ ∃ st ∈ S, ∃ q, st.1 = some q) ∨ Good s p w) ∧ ∀ st ∈ S, ∀ q, st.1 = some q → q.b = w ∧ q.r = p := by
+  induction S generalizing s with
+  | nil => exact ⟨Or.inr h, fun _ hx => by simp at hx⟩
+  | cons st rest ih =>
+    have hst := hS st (by simp)
+    obtain ⟨i1, i2⟩ := ih (fun x hx => hS x (by simp [hx])) (g s st) (g_paired s st hst hP) h
+    rcases i1 with ⟨u, x, hx, q, hq⟩ | gd
+    · obtain ⟨u1, u2⟩ := step_back_unset s st hst u
+      refine ⟨Or.inl ⟨u1, x, by simp [hx], q, hq⟩, fun y hy q' hq' => ?_⟩
+      rcases List.mem_cons.mp hy with rfl | hy
+      · rw [u2] at hq'; cases hq'
+      · exact i2 y hy q' hq'
+    · obtain ⟨b, _⟩ := step_back_good s st hst hP p w hp hw gd
+      rcases b with ⟨b1, b2⟩ | ⟨q, b1, b2, b3, b4⟩
+      · refine ⟨Or.inr b2, fun y hy q' hq' => ?_⟩
+        rcases List.mem_cons.mp hy with rfl | hy
+        · rw [b1] at hq'; cases hq'
+        · exact i2 y hy q' hq'
+      · refine ⟨?_, fun y hy q' hq' => ?_⟩
+        · rcases b4 with b4 | b4
+          · exact Or.inl ⟨b4, st, by simp, q, b1⟩
+          · exact Or.inr b4
+        · rcases List.mem_cons.mp hy with rfl | hy
+          · rw [b1] at hq'; cases hq'; exact ⟨b2, b3⟩
+          · exact i2 y hy q' hq'
+
+/-- the bounds are tested at the last step of the scan, with the maxima over ALL lines -/
+theorem fold_good_bounds (S : List (Option Line × Line)) (hS : ∀ st ∈ S, StepOk st) (s : S4) (hP : Paired s) (hne : S ≠ [])
+    (p w : Int) (hp : 0 < p) (hw : 0 < w) (h : Good (S.foldl g s) p w) :
+    (S.foldl g s).mr ≤ p ∧ (S.foldl g s).mx ≤ w - p - 1 := by
+  induction S generalizing s with
+  | nil => exact absurd rfl hne
+  | cons st rest ih =>
+    have hst := hS st (by simp)
     cases rest with
-    | nil => rfl
-    | cons e rest' =>
-      have : pairsOf (d :: e :: rest') = (d, e) :: pairsOf (e :: rest') := rfl
-      rw [this, List.map_cons, ih]; rfl
+    | nil =>
+      have := (step_back_good s st hst hP p w hp hw h).2
+      show (g s st).mr ≤ p ∧ (g s st).mx ≤ w - p - 1
+      rw [g_mr, g_mx]; exact this
+    | cons st2 rest2 =>
+      exact ih (fun x hx => hS x (by simp [hx])) (g s st) (g_paired s st hst hP) (by simp) h
 
-theorem pairsOf_snd (ds : List Int) : (pairsOf ds).map Prod.snd = ds.tail := by
-  induction ds with
+/-- sufficiency -/
+theorem fold_good_suf (S : List (Option Line × Line)) (s : S4) (p w : Int) (hp : 0 < p) (hw : 0 < w)
+    (hinit : (Unset s ∧ ∃ st ∈ S, ∃ q, st.1 = some q) ∨ Good s p w)
+    (hprev : ∀ st ∈ S, ∀ q, st.1 = some q → q.b = w ∧ q.r = p)
+    (hmr : s.mr ≤ p) (hmx : s.mx ≤ w - p - 1) (hall : ∀ st ∈ S, st.2.r ≤ p ∧ st.2.x ≤ w - p - 1) :
+    Good (S.foldl g s) p w := by
+  induction S generalizing s with
+  | nil =>
+    rcases hinit with ⟨_, x, hx, _⟩ | h
+    · simp at hx
+    · exact h
+  | cons st rest ih =>
+    have ha := hall st (by simp)
+    have e1 : mr' s st ≤ p := by unfold mr'; split <;> omega
+    have e2 : mx' s st ≤ w - p - 1 := by unfold mx'; split <;> omega
+    rw [List.foldl_cons]
+    apply ih (g s st) _ (fun x hx => hprev x (by simp [hx])) (by rw [g_mr]; exact e1) (by rw [g_mx]; exact e2)
+      (fun x hx => hall x (by simp [hx]))
+    cases hq : st.1 with
+    | none =>
+      rcases hinit with ⟨u, x, hx, q, hxq⟩ | gd
+      · have hd : ¬ Dead s st := by
+          unfold Dead; rw [hq]; simp only [prevR]; have := u.1; omega
+        rw [g_live s st hd, hq]
+        refine Or.inl ⟨by simpa [Unset, prevR, prevB] using u, x, ?_, q, hxq⟩
+        rcases List.mem_cons.mp hx with rfl | hx
+        · rw [hq] at hxq; cases hxq
+        · exact hx
+      · have hd : ¬ Dead s st := by
+          unfold Dead; rw [hq]; simp only [prevR, prevB]; have := gd.1; have := gd.2; omega
+        rw [g_live s st hd, hq]
+        exact Or.inr (by simpa [Good, prevR, prevB] using gd)
+    | some q =>
+      obtain ⟨q1, q2⟩ := hprev st (by simp) q hq
+      have hR : prevR st.1 s.rpl = p := by
+        rw [hq]; simp only [prevR, fl, q2]
+        rcases hinit with ⟨u, _⟩ | gd
+        · simp [u.1]
+        · rw [gd.1]; split
+          · rfl
+          · simp
+      have hB : prevB st.1 s.bpl = w := by
+        rw [hq]; simp only [prevB, fl, q1]
+        rcases hinit with ⟨u, _⟩ | gd
+        · simp [u.2]
+        · rw [gd.2]; split
+          · rfl
+          · simp
+      have hd : ¬ Dead s st := by
+        unfold Dead; rw [hR, hB]; omega
+      rw [g_live s st hd, hR, hB]
+      exact Or.inr ⟨rfl, rfl⟩
+
+/-! ## from steps back to lines -/
+
+theorem stepsFrom_snd (ls : List Line) (prev : Option Line) : (stepsFrom prev ls).map Prod.snd = ls := by
+  induction ls generalizing prev with
   | nil => rfl
-  | cons d rest ih =>
+  | cons l rest ih => simp [stepsFrom, ih]
+
+theorem stepsFrom_prev_mem (ls : List Line) (prev : Option Line) (st : Option Line × Line) (q : Line)
+    (h : st ∈ stepsFrom prev ls) (hq : st.1 = some q) : prev = some q ∨ q ∈ ls.dropLast := by
+  induction ls generalizing prev with
+  | nil => simp [stepsFrom] at h
+  | cons l rest ih =>
+    rcases List.mem_cons.mp h with rfl | h
+    · exact Or.inl hq
+    · right
+      cases rest with
+      | nil => simp [stepsFrom] at h
+      | cons l2 rest2 =>
+        show q ∈ l :: (l2 :: rest2).dropLast
+        rcases ih (some l) h with e | e
+        · cases e; simp
+        · exact List.mem_cons_of_mem l e
+
+theorem stepsFrom_prev_exists (ls : List Line) (prev : Option Line) (q : Line) (h : q ∈ ls.dropLast) :
+    ∃ st ∈ stepsFrom prev ls, st.1 = some q := by
+  induction ls generalizing prev with
+  | nil => simp at h
+  | cons l rest ih =>
     cases rest with
-    | nil => rfl
-    | cons e rest' =>
-      have : pairsOf (d :: e :: rest') = (d, e) :: pairsOf (e :: rest') := rfl
-      rw [this, List.map_cons, ih]; rfl
-
-theorem pairsOf_nonneg (ds : List Int) (h : ∀ d ∈ ds, 0 ≤ d) : ∀ q ∈ pairsOf ds, 0 ≤ q.1 := by
-  intro q hq
-  have : q.1 ∈ (pairsOf ds).map Prod.fst := List.mem_map.mpr ⟨q, hq, rfl⟩
-  rw [pairsOf_fst] at this
-  exact h _ ((List.dropLast_sublist ds).subset this)
-
-theorem allPairs_nonneg (recs : List (List Int)) (h : ∀ ds ∈ recs, ∀ d ∈ ds, 0 ≤ d) : ∀ q ∈ allPairs recs, 0 ≤ q.1 := by
-  intro q hq
-  obtain ⟨ds, hds, hq⟩ := List.mem_flatMap.mp hq
-  exact pairsOf_nonneg ds (h ds hds) q hq
-
-/-- every pair has first component `p` ⇔ every non-final line of every record has `p` -/
-theorem allPairs_fst_iff (recs : List (List Int)) (p : Int) :
-    (∀ q ∈ allPairs recs, q.1 = p) ↔ ∀ ds ∈ recs, ∀ d ∈ ds.dropLast, d = p := by
-  constructor
-  · intro h ds hds d hd
-    rw [← pairsOf_fst] at hd
-    obtain ⟨q, hq, rfl⟩ := List.mem_map.mp hd
-    exact h q (List.mem_flatMap.mpr ⟨ds, hds, hq⟩)
-  · intro h q hq
-    obtain ⟨ds, hds, hq⟩ := List.mem_flatMap.mp hq
-    exact h ds hds q.1 (by rw [← pairsOf_fst]; exact List.mem_map.mpr ⟨q, hq, rfl⟩)
-
-theorem allPairs_append (a b : List (List Int)) : allPairs (a ++ b) = allPairs a ++ allPairs b := by
-  simp [allPairs]
-
-/-- the last line of a record with at least two lines is the second component of one of its pairs -/
-theorem last_mem_pairsOf_snd (ds : List Int) (h : 2 ≤ ds.length) (hne : ds ≠ []) :
-    ∃ q ∈ pairsOf ds, q.2 = ds.getLast hne := by
-  have ht : ds.tail ≠ [] := by
-    cases ds with
     | nil => simp at h
-    | cons d rest => cases rest with
-      | nil => simp at h
-      | cons e r => simp
-  have hmem : ds.getLast hne ∈ ds.tail := by
-    have : ds.getLast hne = ds.tail.getLast ht := by
-      cases ds with
-      | nil => simp at h
-      | cons d rest => cases rest with
-        | nil => simp at h
-        | cons e r => simp [List.getLast_cons]
-    rw [this]; exact List.getLast_mem ht
-  rw [← pairsOf_snd] at hmem
-  obtain ⟨q, hq, hq2⟩ := List.mem_map.mp hmem
-  exact ⟨q, hq, hq2⟩
+    | cons l2 rest2 =>
+      have h' : q ∈ l :: (l2 :: rest2).dropLast := h
+      rcases List.mem_cons.mp h' with rfl | h'
+      · exact ⟨(some q, l2), by simp [stepsFrom], rfl⟩
+      · obtain ⟨st, hst, e⟩ := ih (some l) h'
+        exact ⟨st, by simp only [stepsFrom] at hst ⊢; exact List.mem_cons_of_mem _ hst, e⟩
 
-/-- **Last lines.** If the final value is `p > 0`, a record with ≥ 2 terminated lines that comes after some other record with ≥ 2
-    terminated lines ends in a line of at most `p`. -/
-theorem last_line_le (pre post : List (List Int)) (ds : List Int) (p : Int) (hp : 0 < p)
-    (hnn : ∀ x ∈ pre ++ ds :: post, ∀ d ∈ x, 0 ≤ d)
-    (hpre : ∃ x ∈ pre, 2 ≤ x.length) (h2 : 2 ≤ ds.length) (hne : ds ≠ [])
-    (h : feed (-1) (allPairs (pre ++ ds :: post)) = p) : ds.getLast hne ≤ p := by
-  obtain ⟨q0, rest, he, _, hrest⟩ := (feed_unset_iff _ p hp (allPairs_nonneg _ hnn)).mp h
-  obtain ⟨q, hq, hq2⟩ := last_mem_pairsOf_snd ds h2 hne
-  have e : allPairs (pre ++ ds :: post) = allPairs pre ++ (pairsOf ds ++ allPairs post) := by
-    rw [allPairs_append]; rfl
-  -- `allPairs pre` is non-empty, so the pairs of `ds` are all in `rest`
-  obtain ⟨x, hx, hx2⟩ := hpre
-  have hx' : pairsOf x ≠ [] := by
-    cases x with
-    | nil => simp at hx2
-    | cons d r => cases r with
-      | nil => simp at hx2
-      | cons e r' => simp [pairsOf]
-  have hpne : allPairs pre ≠ [] := by
-    intro hnil
-    have : ∀ y ∈ pre, pairsOf y = [] := by
-      intro y hy
-      have := List.flatMap_eq_nil_iff.mp hnil y hy
-      exact this
-    exact hx' (this x hx)
-  obtain ⟨a, as, ha⟩ := List.exists_cons_of_ne_nil hpne
-  rw [e, ha, List.cons_append] at he
-  obtain ⟨_, rfl⟩ := List.cons.inj he
-  have : q ∈ as ++ (pairsOf ds ++ allPairs post) := by simp [hq]
-  have := (hrest q this).2
-  omega
+theorem stepsFrom_ok (ls : List Line) (hok : ∀ l ∈ ls, l.Ok) : ∀ st ∈ stepsFrom none ls, StepOk st := by
+  intro st hst q hq
+  rcases stepsFrom_prev_mem ls none st q hst hq with e | e
+  · cases e
+  · have := hok q ((List.dropLast_sublist ls).subset e)
+    exact ⟨this.2.1, by have := this.1; omega⟩
+
+/-- **The exact guarantee of the repaired tracker.** -/
+theorem tracker_iff (recs : List (List Line)) (hok : ∀ rec ∈ recs, ∀ l ∈ rec, l.Ok)
+    (hterm : ∀ rec ∈ recs, ∀ l ∈ rec.dropLast, l.eol = true) (p w : Int) (hp : 0 < p) (hw : 0 < w) :
+    ((runFile {} recs).rpl = p ∧ (runFile {} recs).bpl = w) ↔
+      (∃ rec ∈ recs, ∃ l, l ∈ rec.dropLast) ∧
+      (∀ rec ∈ recs, ∀ l ∈ rec.dropLast, l.b = w ∧ l.r = p) ∧
+      (∀ rec ∈ recs, ∀ l ∈ rec, l.r ≤ p ∧ l.x ≤ w - p - 1) := by
+  have hfold := file_fold recs {} hok hterm
+  have hcore : ((runFile {} recs).rpl = p ∧ (runFile {} recs).bpl = w) ↔ Good ((fileSteps recs).foldl g (core {})) p w := by
+    rw [← hfold]; rfl
+  rw [hcore]
+  have hS : ∀ st ∈ fileSteps recs, StepOk st := by
+    intro st hst
+    obtain ⟨rec, hrec, hst⟩ := List.mem_flatMap.mp hst
+    exact stepsFrom_ok rec (hok rec hrec) st hst
+  have hP0 : Paired (core {}) := by simp [Paired, core]
+  have hU0 : Unset (core {}) := ⟨rfl, rfl⟩
+  constructor
+  · intro h
+    obtain ⟨n1, n2⟩ := fold_good_nec _ hS _ hP0 p w hp hw h
+    have hex : ∃ st ∈ fileSteps recs, ∃ q, st.1 = some q := by
+      rcases n1 with ⟨_, e⟩ | gd
+      · exact e
+      · have := gd.1; simp [core] at this; omega
+    obtain ⟨st0, hst0, q0, hq0⟩ := hex
+    have hne : fileSteps recs ≠ [] := List.ne_nil_of_mem hst0
+    obtain ⟨b1, b2⟩ := fold_good_bounds _ hS _ hP0 hne p w hp hw h
+    obtain ⟨_, m⟩ := fold_max_ge (fileSteps recs) (core {})
+    refine ⟨?_, ?_, ?_⟩
+    · obtain ⟨rec, hrec, hst⟩ := List.mem_flatMap.mp hst0
+      rcases stepsFrom_prev_mem rec none st0 q0 hst hq0 with e | e
+      · cases e
+      · exact ⟨rec, hrec, q0, e⟩
+    · intro rec hrec l hl
+      obtain ⟨st, hst, e⟩ := stepsFrom_prev_exists rec none l hl
+      exact n2 st (List.mem_flatMap.mpr ⟨rec, hrec, hst⟩) l e
+    · intro rec hrec l hl
+      have : l ∈ (stepsFrom none rec).map Prod.snd := by rw [stepsFrom_snd]; exact hl
+      obtain ⟨st, hst, rfl⟩ := List.mem_map.mp this
+      have := m st (List.mem_flatMap.mpr ⟨rec, hrec, hst⟩)
+      omega
+  · rintro ⟨⟨rec, hrec, l, hl⟩, h2, h3⟩
+    apply fold_good_suf _ _ p w hp hw
+    · left
+      obtain ⟨st, hst, e⟩ := stepsFrom_prev_exists rec none l hl
+      exact ⟨hU0, st, List.mem_flatMap.mpr ⟨rec, hrec, hst⟩, l, e⟩
+    · intro st hst q hq
+      obtain ⟨rec', hrec', hst'⟩ := List.mem_flatMap.mp hst
+      rcases stepsFrom_prev_mem rec' none st q hst' hq with e | e
+      · cases e
+      · exact h2 rec' hrec' q e
+    · show (0 : Int) ≤ p; omega
+    · show (0 : Int) ≤ w - p - 1
+      have := h2 rec hrec l hl
+      have hl' := hok rec hrec l ((List.dropLast_sublist rec).subset hl)
+      have hx := (h3 rec hrec l ((List.dropLast_sublist rec).subset hl)).2
+      have := hl'.2.2
+      omega
+    · intro st hst
+      obtain ⟨rec', hrec', hst'⟩ := List.mem_flatMap.mp hst
+      have : st.2 ∈ (stepsFrom none rec').map Prod.snd := List.mem_map.mpr ⟨st, hst', rfl⟩
+      rw [stepsFrom_snd] at this
+      exact h3 rec' hrec' st.2 this
+
 
 end EaselModel.Sqio.TrackerExact
